@@ -51,6 +51,7 @@ func main() {
 			run.Count("corpus_cases", 1)
 		}
 	}
+	exhaustive(run)
 	sets := run.Pick(4000, 150000)
 	const per = 50
 	run.Parallel(sets/per, func(batch int) {
@@ -75,6 +76,62 @@ func main() {
 			check(run, c, r)
 		}
 	})
+}
+
+var slashPool = []string{"/a", "/a/", "/{p0}", "/{p0}/", "/*{c0}", "/a/b", "/a/b/", "/a/{p1}", "/a/{p1}/", "/{p0}/b/", "/a/*{c1}", "/a{p0}", "/a{p0}/", "/ab", "/a/bc/", "/*{c0}/b/", "/a/*{c1}/x/"}
+
+// exhaustive enumerates every set of <=3 patterns of a slash-focused pool x every path of <=3 segments (with and
+// without trailing slash) x the two global trailing-slash modes.
+func exhaustive(run *kit.Run) {
+	vals := []string{"a", "b", "bc", "x"}
+	var paths []string
+	var rec func(prefix string, d int)
+	rec = func(prefix string, d int) {
+		if d > 0 {
+			paths = append(paths, prefix, prefix+"/")
+		}
+		if d == 3 {
+			return
+		}
+		for _, v := range vals {
+			rec(prefix+"/"+v, d+1)
+		}
+	}
+	rec("", 0)
+	paths = append(paths, "/")
+	var sets [][]int
+	var comb func(start int, cur []int)
+	comb = func(start int, cur []int) {
+		if len(cur) > 0 {
+			sets = append(sets, append([]int(nil), cur...))
+		}
+		if len(cur) == 3 {
+			return
+		}
+		for i := start; i < len(slashPool); i++ {
+			comb(i+1, append(cur, i))
+		}
+	}
+	comb(0, nil)
+	run.Parallel(len(sets), func(i int) {
+		for mi, mode := range []string{"ignore", "redirect"} {
+			c := route.Case{Global: []string{mode}}
+			for _, k := range sets[i] {
+				c.Routes = append(c.Routes, route.RouteSpec{Method: "GET", Pattern: slashPool[k]})
+			}
+			for j, p := range paths {
+				m := "GET"
+				if (i+j+mi)%5 == 0 {
+					m = "POST"
+				}
+				c.Reqs = append(c.Reqs, route.Req{Method: "GET", Path: p})
+				_ = m
+			}
+			check(run, c, nil)
+		}
+		run.Count("exhaustive_sets", 1)
+	})
+	run.SetExtra("exhaustive_subspace", fmt.Sprintf("all %d sets of <=3 patterns from a %d-pattern slash-focused pool x all %d paths of <=3 segments over %v (with and without trailing slash) x {ignore, redirect}: enumerated completely", len(sets), len(slashPool), len(paths), vals))
 }
 
 var hostile = []string{"a:b", "a?b", "a#b", "a%b", "a b", "é", "https:evil.com", "a;b", "a&b=c", "%2F", "a+b", "x%20y", "..a", "a..", "日本"}
